@@ -38,6 +38,69 @@ pub fn main(args: &[String]) {
             });
             rep.traces = rep.evaluations;
         }
+        Some("hostilemaps") => {
+            // damaged mapping tables: every 8/16/24/32-bit field of the IFT / IFTX table of random well-formed fonts (format 2)
+            // and of a format 1 font overwritten with boundary values, and truncations; intersecting_patches and
+            // select_next_patches answer with a value or an error (no panic; no overflow in the strict build)
+            let seed: u64 = arg_after(args, "--seed").map(|s| s.parse().unwrap()).unwrap_or(0);
+            let n: usize = arg_after(args, "--n").map(|s| s.parse().unwrap()).unwrap_or(12);
+            let mut rng = Rng::new(seed ^ 0x1f7);
+            let mut fonts: Vec<(String, Vec<u8>)> = vec![];
+            for i in 0..n {
+                let mut f = [random_font(&mut rng)];
+                unify_formats(&mut f);
+                fonts.push((format!("random format 2 font {i} (seed {seed})"), build_font(&f[0], i as u64, &[]).bytes));
+            }
+            fonts.push(("format 1 font".to_string(), crate::c19_f1::sample_font()));
+            let defs: Vec<incremental_font_transfer::patchmap::SubsetDefinition> = vec![AbsDef::all().realise(), random_def(&mut rng).realise(), AbsDef { cps: vec![0, 1], feats: vec![0], ds: vec![(0, 3)], fall: false, dall: false, inverted: false }.realise()];
+            for (name, bytes) in &fonts {
+                let font = FontRef::new(bytes).unwrap();
+                for tag in [Tag::new(b"IFT "), Tag::new(b"IFTX")] {
+                    let Some(table) = font.table_data(tag).map(|d| d.as_bytes().to_vec()) else { continue };
+                    let mut variants: Vec<(String, Vec<u8>)> = vec![];
+                    for p in 0..table.len().min(400) {
+                        for (w, vals) in [(1usize, vec![0u64, 1, 2, 3, 0x7F, 0x80, 0xFF]), (2, vec![0, 1, 0x7FFF, 0x8000, 0xFFFF]), (3, vec![0, 0xFFFFFF, 0x800000]), (4, vec![0, 0x7FFF_FFFF, 0x8000_0000, 0xFFFF_FFFF])] {
+                            if p + w > table.len() || (w > 1 && p % 2 == 1 && w != 3) {
+                                continue;
+                            }
+                            for val in vals {
+                                let mut b = table.clone();
+                                for k in 0..w {
+                                    b[p + k] = (val >> (8 * (w - 1 - k))) as u8;
+                                }
+                                if b != table {
+                                    variants.push((format!("u{} at {p} = {val:#x}", 8 * w), b));
+                                }
+                            }
+                        }
+                    }
+                    for cut in 1..table.len().min(120) {
+                        variants.push((format!("{cut} bytes shorter"), table[..table.len() - cut].to_vec()));
+                    }
+                    for (what, tb) in variants {
+                        let mut b = write_fonts::FontBuilder::new();
+                        b.add_raw(tag, tb);
+                        b.copy_missing_tables(font.clone());
+                        let damaged = b.build();
+                        let Ok(df) = FontRef::new(&damaged) else { continue };
+                        rep.evaluations += 1;
+                        for (k, def) in defs.iter().enumerate() {
+                            let r = guarded(|| {
+                                let a = intersecting_patches(&df, def).map(|v| v.len()).unwrap_or(usize::MAX);
+                                let g = PatchGroup::select_next_patches(df.clone(), def).map(|g| g.uris().count()).unwrap_or(usize::MAX);
+                                (a, g)
+                            });
+                            if let Err(p) = r {
+                                rep.violation(&format!("{name}, {tag} table with {what}, definition {k}: panic: {p}"), json!({"kind": "hostile-map", "font": name, "table": tag.to_string(), "what": what, "def": k}));
+                                break;
+                            }
+                        }
+                    }
+                }
+            }
+            rep.traces = rep.evaluations;
+            rep.distinct = rep.evaluations;
+        }
         Some("deepchain") => {
             // a chain of entries in which each one names its predecessor as only child, all ignored but the last: the
             // depth of the child relation is bounded by the entry count (24 bits) only, the stack by far less
